@@ -345,6 +345,33 @@ fn observe(n: &Natural, r: &Ref, what: &str, ctx: &mut RunCtx) -> bool {
                     return fail(ctx, format!("{} gives {}, expected {}", name, got, exp));
                 }
             }
+            // width, fill, alignment, sign and zero flags as for the primitive integers
+            let hex = b.to_pow2(4, false);
+            let bin = b.to_pow2(1, false);
+            let oct = b.to_pow2(3, false);
+            let w = hex.len() + 3;
+            let wb = bin.len() + 2;
+            let zero_pad = |prefix: &str, digits: &str, width: usize| {
+                let body = prefix.len() + digits.len();
+                format!("{}{}{}", prefix, "0".repeat(width.saturating_sub(body)), digits)
+            };
+            let flagged = [
+                (format!("{:>w$x}", n, w = w), format!("{:>w$}", hex, w = w), "{:>w$x}"),
+                (format!("{:<w$x}", n, w = w), format!("{:<w$}", hex, w = w), "{:<w$x}"),
+                (format!("{:*^w$x}", n, w = w), format!("{:*^w$}", hex, w = w), "{:*^w$x}"),
+                (format!("{:w$b}", n, w = wb), format!("{:>w$}", bin, w = wb), "{:w$b}"),
+                (format!("{:w$o}", n, w = oct.len() + 1), format!("{:>w$}", oct, w = oct.len() + 1), "{:w$o}"),
+                (format!("{:0w$x}", n, w = w), zero_pad("", &hex, w), "{:0w$x}"),
+                (format!("{:#0w$x}", n, w = w + 2), zero_pad("0x", &hex, w + 2), "{:#0w$x}"),
+                (format!("{:#w$b}", n, w = wb + 2), format!("{:>w$}", format!("0b{}", bin), w = wb + 2), "{:#w$b}"),
+                (format!("{:+x}", n), format!("+{}", hex), "{:+x}"),
+                (format!("{:1x}", n), hex.clone(), "{:1x}"),
+            ];
+            for (got, exp, name) in flagged {
+                if got != exp {
+                    return fail(ctx, format!("format {} gives {:?}, expected {:?}", name, got, exp));
+                }
+            }
             let u128v = b.to_u128();
             match (u128::try_from(n), u128v) {
                 (Ok(a), Some(e)) if a == e => {}
